@@ -6,7 +6,7 @@
    sequence of allocation failures). *)
 From Coq Require Import NArith Arith List Bool.
 Import ListNotations.
-Require Import UV.C03.Model UV.C03.Inv UV.C03.Proofs UV.C03.Lost UV.C03.Fits UV.C03.Progress.
+Require Import UV.C03.Model UV.C03.Inv UV.C03.Proofs UV.C03.Lost UV.C03.Fits UV.C03.Progress UV.C03.Kick.
 
 (* The invariant (UV.C03.Inv.Inv) holds in every reachable state:  for every thread t
      file t ++ contents of (writer's head ++ writer's bufs ++ t's part of buf_write_list ++
@@ -38,6 +38,29 @@ Theorem C03_can_finish : forall c nw s, reach c nw s ->
                 forall t, file s' t = emitted s t /\ bytes_of (file s' t) = bytes_of (emitted s t).
 Proof. exact can_finish. Qed.
 Print Assumptions C03_can_finish.
+
+(* No lost wake-up: while the recorder runs (before stop_all_writers) the thread_ctl pipe holds at least one
+   kick for every buffer waiting in buf_write_list (copy_to_buffer writes one per buffer it queues, a writer
+   that wakes consumes one and takes at least one buffer if any waits) ... *)
+Theorem C03_no_lost_wakeup : forall c nw s, reach c nw s -> stopped s = false -> length (bwl s) <= kicks s.
+Proof. exact no_lost_wakeup. Qed.
+Print Assumptions C03_no_lost_wakeup.
+
+(* ... so whenever a buffer waits and writer w is idle, w's next round is enabled (its poll returns, before stop
+   because a kick is there, after stop by end-of-file), takes the first waiting buffer with every other buffer
+   of that thread, and leaves none of that thread behind. *)
+Theorem C03_idle_writer_can_pick : forall c nw s w wr b rest, reach c nw s -> joined s = false ->
+  nth_error (ws s) w = Some wr -> wtid wr = None -> bwl s = b :: rest ->
+  exists s' wr', w_pick s w = Some s' /\ nth_error (ws s') w = Some wr' /\ wtid wr' = Some (fst b) /\
+                 whead wr' = of_tid (fst b) (bwl s) /\ of_tid (fst b) (bwl s') = [].
+Proof. exact idle_writer_can_pick. Qed.
+Print Assumptions C03_idle_writer_can_pick.
+
+Theorem C03_no_lost_wakeup_nonvacuous :
+  exists s, run {| maxsize := 16 |} (init 2) kick_trace = Some s /\ bwl s = [(0, 0); (1, 0)] /\ kicks s = 2 /\
+  exists s', w_pick s 0 = Some s' /\ bwl s' = [(1, 0)] /\ kicks s' = 1.
+Proof. exact kick_run. Qed.
+Print Assumptions C03_no_lost_wakeup_nonvacuous.
 
 (* At every moment the file is a prefix of the thread's output that ends at a record boundary. *)
 Theorem C03_whole_records : forall c nw s t, reach c nw s ->
